@@ -1,6 +1,6 @@
 (* Uniform executable entry point of the model for the correspondence check:
    run_case tag args = the observable outputs the implementation must produce for the same case. *)
-From DDSV Require Import base.Machine model.View model.Layout model.DecoderSM model.EncoderSM model.Split model.DecodeScript model.Formats gen.GenFormats spec.SpecLayout model.HeaderTypes gen.GenHeader model.Header model.Numeric model.BCdec model.BC7 model.Float model.Convert model.Uncomp model.Crop.
+From DDSV Require Import base.Machine model.View model.Layout model.DecoderSM model.EncoderSM model.Split model.DecodeScript model.Formats gen.GenFormats spec.SpecLayout model.HeaderTypes gen.GenHeader model.Header model.Numeric model.BCdec model.BC7 model.Float model.Convert model.Uncomp model.Crop model.Encode.
 
 Local Open Scope Z_scope.
 
@@ -363,6 +363,13 @@ Definition run_c05 (a : list Z) : list Z :=
   | _ => [-99]
   end.
 
+(* ---- C12 uncompressed encode: [fmt; channels; prec; values...] -> bytes *)
+Definition run_c12 (a : list Z) : list Z :=
+  match a with
+  | f :: ch :: prec :: values => Encode.encode_image f ch prec values
+  | _ => [-99]
+  end.
+
 Definition run_case (tag : Z) (args : list Z) : list Z :=
   match tag with
   | 20 => run_c20 args
@@ -378,6 +385,7 @@ Definition run_case (tag : Z) (args : list Z) : list Z :=
   | 3 => run_c03 args
   | 4 => run_c04 args
   | 5 => run_c05 args
+  | 12 => run_c12 args
   | 40 => run_c40 args
   | _ => [-98]
   end.
